@@ -363,11 +363,7 @@ func (in *Interp) callMethod(m *BoundMethod, args []Value) Value {
 				func() {
 					defer func() {
 						if r := recover(); r != nil {
-							if e, ok := r.(*RErr); ok && e.Cat != "panic" {
-								// re-wrapped by the builtin: same text, no longer fatal
-								panic(&RErr{Cat: e.Cat, Msg: e.Msg})
-							}
-							panic(r)
+							panic(r) // the builtin passes the callback's error on unchanged
 						}
 					}()
 					out = in.callClosure(clo, cargs)
